@@ -25,6 +25,21 @@ class Gen07(c01.Gen):
       return ['q']
     return super().atom()
 
+  def clone_op(self):
+    r = self.r
+    j = {'op': 'clone', 't': r.below(64) if r.chance(0.55) else 0, 'deep': r.chance(0.5), 'n': not r.chance(0.15)}
+    if r.chance(0.4):
+      # clone inside scoped flags: the scope must not leak into the clone
+      sc_ = {}
+      if r.chance(0.6):
+        sc_['partial'] = r.chance(0.7)
+      if r.chance(0.4):
+        sc_['sealed'] = r.chance(0.5)
+      if r.chance(0.4):
+        sc_['accw'] = r.chance(0.5)
+      j['scope'] = sc_
+    return j
+
   def static_history(self):
     """construction, seal / unseal of inner nodes, clones — no mutation, no offered nodes: the
     stream that may hold pg.Ref to existing nodes, inferred values and individually sealed
@@ -40,7 +55,7 @@ class Gen07(c01.Gen):
         if k < 3:
           ops.append({'op': 'seal', 't': r.below(64), 'flag': r.chance(0.6)})
         elif k < 9:
-          ops.append({'op': 'clone', 't': r.below(64) if r.chance(0.6) else 0, 'deep': r.chance(0.5)})
+          ops.append(self.clone_op())
         else:
           ops.append({'op': 'new', 'v': self.container(r.randint(1, 3), 0.0, True)})
       return {'ops': ops}
@@ -61,7 +76,7 @@ class Gen07(c01.Gen):
       if r.chance(0.08):
         ops.append({'op': 'seal', 't': r.below(64), 'flag': r.chance(0.7)})
       elif i == 0 or r.chance(0.18):
-        ops.append({'op': 'clone', 't': r.below(64) if r.chance(0.5) else 0, 'deep': r.chance(0.5), 'n': True})
+        ops.append(self.clone_op())
       else:
         ops.append(self.op(off))
     return {'ops': ops}
@@ -70,6 +85,8 @@ class Gen07(c01.Gen):
 def content(r, n):
   """What `to_json` / `pg.eq` can see of a value: classes, flags, keys, leaves (non-symbolic
   objects by identity) — not parent and path."""
+  if isinstance(n, tuple):
+    return ['tup', [['obj', id(x)] for x in n]]
   if not r.is_node(n):
     a = r.atom(n)
     return ['obj', id(n)] if isinstance(a, list) and a and a[0] == 'q' else a
@@ -99,6 +116,8 @@ def leaves(r, n, out):
       leaves(r, c, out)
     elif isinstance(c, sc.Opq):
       out.append(c)
+    elif isinstance(c, tuple):
+      out += [x for x in c if isinstance(x, sc.Opq)]
   return out
 
 
@@ -135,7 +154,7 @@ def check_clone(r, orig, clone, deep, before):
         ks = kx if isinstance(kx, str) else 'r' if kx == ['o', 2] else 'o'
         if which == ['sealed'] and fy[0] and x is not orig:
           # an inner node that was unsealed below a sealed ancestor comes back sealed
-          return ('resealed:%s' % ks, 'inner node at %r is unsealed in the original and sealed in the clone '
+          return ('resealed:%s' % ('l' if ks == 'tl' else ks), 'inner node at %r is unsealed in the original and sealed in the clone '
                   '(the constructor of a sealed clone seals everything below)' % str(x.sym_path))
         return ('flags:%s:%s' % (ks, '+'.join(which)),
                 'flags (sealed, accessor_writable, allow_partial) %s vs %s at %r' % (fx, fy, str(x.sym_path)))
